@@ -1,11 +1,16 @@
 """C08 - fail-fast stops dispatching after the first final failure, yet closes cleanly."""
-from checks import common, sched, run_prefix, ingest, sched_worlds
+from checks import common, sched, run_prefix, ingest, sched_worlds, c03
 
 
 def body(chk):
     run_prefix.obligations(chk, 'C08', which=('fail_fast',))
     ingest.obligations(chk, 'C08')
     sched_worlds.run(chk, 'C08')
+    # what closes the run after fail-fast cut it short: every bracket still open gets its Finished
+    c03.finish_all(chk, 'C08')
+    # CLI options installed through Cucumber::with_cli() survive the builder methods called afterwards
+    from checks import cucumber_builders
+    cucumber_builders.obligations(chk, 'C08')
 
 
 if __name__ == '__main__':
